@@ -184,3 +184,32 @@ Definition trace_complete (B : compiled) : Prop :=
                  exists l, In (N.of_nat p, l) (p_trace B).
 Definition trace_complete_check (B : compiled) : bool :=
   match untraced B with [] => true | _ => false end.
+
+(* ---- the modelled domain of literals: integer / float literals fit i64 / 64 bits (true for every
+   module that comes from the Rust types), function handles are 32-bit ---- *)
+Fixpoint card_rng (c : card) : bool :=
+  match c with
+  | CScalarInt z => ((- 9223372036854775808 <=? z) && (z <? 9223372036854775808))%Z
+  | CScalarFloat b => b <? 18446744073709551616
+  | CBin _ a b => card_rng a && card_rng b
+  | CUn _ a => card_rng a
+  | CTri _ a b c => card_rng a && card_rng b && card_rng c
+  | CCallNative _ args | CCall _ args | CComposite _ args | CArray args | CClosure _ args =>
+      forallb card_rng args
+  | CDynamicCall f args => card_rng f && forallb card_rng args
+  | CSetGlobalVar _ v | CSetVar _ v => card_rng v
+  | CRepeat _ n b => card_rng n && card_rng b
+  | CForEach _ _ _ it b => card_rng it && card_rng b
+  | _ => true
+  end.
+
+Definition fir_rng (f : function_ir) : bool :=
+  (fi_handle f <? two32) && forallb card_rng (fi_cards f).
+
+(* all integer / float literals of the flattened program fit i64 / 64 bits (true for every module that
+   comes from the Rust types) and the function handles are 32-bit *)
+Definition program_in_range (M : module) (o : options) : bool :=
+  match into_ir_stream M (o_recursion_limit o) with
+  | inr fs => forallb fir_rng fs
+  | inl _ => true
+  end.
